@@ -349,6 +349,10 @@ class Waiting(State):
         self._waiting_future.set_exception(reason)
 
     async def execute(self) -> State:  # type: ignore
+        # An interruption delivered before the wait even started was requested while this state was being entered
+        # (e.g. by a listener that was told the process is waiting); the process has carried out that request at the
+        # step boundary already, so it must not interrupt the wait a second time.
+        self._rearm_if_interrupted()
         waiting_future = self._waiting_future
         try:
             result = await waiting_future
